@@ -23,6 +23,9 @@ CHECKS = {
  "C01": dict(
   text="Whole-system deterministic simulation: real Server/ServerStream/Client over a simulated network (UDP, TCP interleaved, HTTP and WebSocket tunnels, plain and TLS+SRTP, server-side writer or recording client as source, readers joining/pausing/leaving) under seeded latency, chunking (down to 1-byte reads), UDP drop/dup/reorder/burst, bounded windows with receiver stalls and seeded yield-point holds; every delivered packet is checked online for identity/order/at-most-once/SSRC, and the recorded history for gap-freedom on reliable carriers.",
   note=WHOLE_NOTE, tech="deterministic simulation with fault injection: seeded schedule/fault search, history oracle", ref="3.1"),
+ "C13": dict(
+  text="Whole-system deterministic simulation with Server.Close, ServerStream.Close and Client.Close (from another goroutine) landing at seeded instants between any two protocol steps - idle, mid-handshake, playing, recording, paused, with a writer running, with peers that stopped reading (bounded window) or vanished - and seeded holds at ~40 yield sites on the shutdown paths; oracles: Close latency in simulated time, socket census of the closed object's node, goroutines attributed to the closed object (creator chains) and a complete end-of-run census, open/close notification balance and no packet/request callback after OnSessionClose (global sequence numbers).",
+  note=WHOLE_NOTE, tech="deterministic simulation with fault injection: close-point and shutdown-interleaving search, census + callback-history oracle", ref="3.8"),
 }
 
 def chk(pid, d):
